@@ -15,12 +15,18 @@ Design decisions (documented because they are choices, not facts about Elk):
   normally: `return`, `break`, `continue`, `throw`).
 * `fits a b` (a value of type `a` may be stored where `b` is declared): same type, `never` into
   anything, `b` into `b?`, `nil` into `b?`.
+* a local may not be declared twice in the same block scope (parameters and catch variables count);
+  parameter names are distinct. (Irrelevant for soundness; it keeps the checker inside Elk's.)
 * `return` at top level (outside a method / closure body) is rejected.
 * `break`/`continue` need an enclosing loop; a labelled one needs an enclosing loop with that label.
   Method and closure bodies start with no enclosing loop.
 * conditions (`if`, `while`) and the operands of `&&`, `||`, `??` may have any type (the evaluator
   only asks for truthiness / nil-ness); the result is the join of the possible results.
-* a block's type is the type of the value its last statement leaves (a method returns it).
+* a block's type is the type of the value its last statement leaves (a method returns it). The
+  value of a `print` statement (`void` in Elk) and of a `while`/`loop` (in Elk: the last body
+  value or nil) is typed `any`, so it cannot be used as a method result.
+* `print e` (= `println(e.inspect)`) needs a printable type: `Int`, `Bool`, `String`, `nil` (Elk
+  rejects `.inspect` on nilable and unknown types).
 
 The checker is fuel-indexed like `check` (Expr/Stmt are nested inductives) and mutually recursive
 like the evaluator, so `decide` can run it.
@@ -51,7 +57,7 @@ def T.beqs : List T → List T → Bool
   | _, _ => false
 end
 
--- source types → checker types; `T??` and `nil?` are normalised the way Elk does
+-- source types → checker types; `nil?` is `nil`; `T??` is not Elk syntax (rejected)
 mutual
 def ofTy : Ty → Option T
   | .int => some .int
@@ -60,7 +66,7 @@ def ofTy : Ty → Option T
   | .nil => some .nil
   | .opt t => match ofTy t with
     | some .nil => some .nil
-    | some (.opt u) => some (.opt u)
+    | some (.opt _) => none
     | some u => some (.opt u)
     | none => none
   | .fn ps r => match ofTys ps, ofTy r with
@@ -125,6 +131,14 @@ def checkUnB (op : UnOp) (a : T) : Option T :=
   | .not, _ => some .bool
   | _, _ => none
 
+/-- types whose values `println(e.inspect)` accepts in Elk (not nilable types, not `any`) -/
+def printable : T → Bool
+  | .int => true
+  | .bool => true
+  | .str => true
+  | .nil => true
+  | _ => false
+
 /-- is a `break`/`continue` carrying label `l` legal inside the loops `L` (innermost first)? -/
 def lblOk (L : List (Option String)) : Option String → Bool
   | none => !L.isEmpty
@@ -145,11 +159,27 @@ def bindTys : List String → List T → TEnvB → TEnvB
   | _, _, g => g
 
 /-- typing context of statements: locals, enclosing loops (innermost first), return type of the
-enclosing method/closure (`none` at top level) -/
+enclosing method/closure (`none` at top level), names of the current block scope -/
 structure Ctx where
   vars : TEnvB
   labels : List (Option String)
   ret : Option T
+  /-- names declared in the current block scope (Elk: "cannot redeclare local") -/
+  scope : List String
+
+/-- Elk rejects a second `var x` in the same block scope (parameters and the catch variable
+belong to the scope of their body); shadowing in a nested block is fine -/
+def declOk (scope : List String) : Stmt → Bool
+  | .decl x _ _ => !scope.contains x
+  | _ => true
+
+def declAdd (scope : List String) : Stmt → List String
+  | .decl x _ _ => x :: scope
+  | _ => scope
+
+def nodupB : List String → Bool
+  | [] => true
+  | x :: xs => !xs.contains x && nodupB xs
 
 /-- the declared signature of a method -/
 def defSig (d : Def) : Option (List T × T) :=
@@ -202,8 +232,8 @@ def checkExpr (defs : List Def) : Nat → TEnvB → Expr → Option T
       (checkExpr defs n g f).bind fun tf => (checkArgs defs n g args).bind fun ts => calleeTy tf ts
     | .lam ps rt body =>
       (ofTys (ps.map (·.2))).bind fun pts => (ofTy rt).bind fun r =>
-        (checkBlock defs n ⟨bindTys (ps.map (·.1)) pts g, [], some r⟩ body).bind fun tv =>
-          if fits tv.1 r then some (.fn pts r) else none
+        (checkBlock defs n ⟨bindTys (ps.map (·.1)) pts g, [], some r, ps.map (·.1)⟩ body).bind fun tv =>
+          if fits tv.1 r && nodupB (ps.map (·.1)) then some (.fn pts r) else none
 
 def checkArgs (defs : List Def) : Nat → TEnvB → List Expr → Option (List T)
   | 0, _, _ => none
@@ -215,9 +245,12 @@ def checkArgs (defs : List Def) : Nat → TEnvB → List Expr → Option (List T
 def checkBlock (defs : List Def) : Nat → Ctx → List Stmt → Option (T × TEnvB)
   | 0, _, _ => none
   | _ + 1, c, [] => some (.nil, c.vars)
-  | n + 1, c, [st] => checkStmt defs n c st
+  | n + 1, c, [st] => if declOk c.scope st then checkStmt defs n c st else none
   | n + 1, c, st :: rest =>
-    (checkStmt defs n c st).bind fun r => checkBlock defs n { c with vars := r.2 } rest
+    if declOk c.scope st then
+      (checkStmt defs n c st).bind fun r =>
+        checkBlock defs n { c with vars := r.2, scope := declAdd c.scope st } rest
+    else none
 
 def checkStmt (defs : List Def) : Nat → Ctx → Stmt → Option (T × TEnvB)
   | 0, _, _ => none
@@ -226,16 +259,18 @@ def checkStmt (defs : List Def) : Nat → Ctx → Stmt → Option (T × TEnvB)
     | .decl x ann e =>
       (checkExpr defs n c.vars e).bind fun t => (declTy ann t).bind fun td => some (t, (x, td) :: c.vars)
     | .expr e => (checkExpr defs n c.vars e).bind fun t => some (t, c.vars)
-    | .print e => (checkExpr defs n c.vars e).bind fun _ => some (.nil, c.vars)
+    | .print e =>
+      (checkExpr defs n c.vars e).bind fun t => if printable t then some (.any, c.vars) else none
     | .ite cnd t e =>
       (checkExpr defs n c.vars cnd).bind fun _ =>
-        (checkBlock defs n c t).bind fun r1 => (checkBlock defs n c e).bind fun r2 =>
+        (checkBlock defs n { c with scope := [] } t).bind fun r1 =>
+          (checkBlock defs n { c with scope := [] } e).bind fun r2 =>
           some (join r1.1 r2.1, c.vars)
     | .while lbl cnd body =>
       (checkExpr defs n c.vars cnd).bind fun _ =>
-        (checkBlock defs n { c with labels := lbl :: c.labels } body).bind fun _ => some (.nil, c.vars)
+        (checkBlock defs n { c with labels := lbl :: c.labels, scope := [] } body).bind fun _ => some (.any, c.vars)
     | .loop lbl body =>
-      (checkBlock defs n { c with labels := lbl :: c.labels } body).bind fun _ => some (.nil, c.vars)
+      (checkBlock defs n { c with labels := lbl :: c.labels, scope := [] } body).bind fun _ => some (.any, c.vars)
     | .brk l => if lblOk c.labels l then some (.never, c.vars) else none
     | .cont l => if lblOk c.labels l then some (.never, c.vars) else none
     | .ret e =>
@@ -243,17 +278,17 @@ def checkStmt (defs : List Def) : Nat → Ctx → Stmt → Option (T × TEnvB)
         if fits t r then some (.never, c.vars) else none
     | .throw e => (checkExpr defs n c.vars e).bind fun _ => some (.never, c.vars)
     | .try body catches fin =>
-      (checkBlock defs n c body).bind fun rb => (checkCatches defs n c catches).bind fun tc =>
+      (checkBlock defs n { c with scope := [] } body).bind fun rb => (checkCatches defs n c catches).bind fun tc =>
         match fin with
         | none => some (join rb.1 tc, c.vars)
-        | some f => (checkBlock defs n c f).bind fun _ => some (join rb.1 tc, c.vars)
+        | some f => (checkBlock defs n { c with scope := [] } f).bind fun _ => some (join rb.1 tc, c.vars)
 
 /-- the join of the types of the catch bodies (`never` for no clause) -/
 def checkCatches (defs : List Def) : Nat → Ctx → List Catch → Option T
   | 0, _, _ => none
   | _ + 1, _, [] => some .never
   | n + 1, c, (.mk p x body) :: rest =>
-    (checkBlock defs n { c with vars := (x, patTy p) :: c.vars } body).bind fun rb =>
+    (checkBlock defs n { c with vars := (x, patTy p) :: c.vars, scope := [x] } body).bind fun rb =>
       (checkCatches defs n c rest).bind fun tr => some (join rb.1 tr)
 end
 
@@ -261,14 +296,14 @@ end
 def checkDef (defs : List Def) (k : Nat) (d : Def) : Bool :=
   match defSig d with
   | some (pts, r) =>
-    match checkBlock defs k ⟨bindTys (d.params.map (·.1)) pts [], [], some r⟩ d.body with
-    | some (tv, _) => fits tv r
+    match checkBlock defs k ⟨bindTys (d.params.map (·.1)) pts [], [], some r, d.params.map (·.1)⟩ d.body with
+    | some (tv, _) => fits tv r && nodupB (d.params.map (·.1))
     | none => false
   | none => false
 
 /-- the program checker: every method against its signature, `main` at top level -/
 def checkProg (k : Nat) (p : Prog) : Bool :=
-  p.defs.all (checkDef p.defs k) && (checkBlock p.defs k ⟨[], [], none⟩ p.main).isSome
+  p.defs.all (checkDef p.defs k) && (checkBlock p.defs k ⟨[], [], none, []⟩ p.main).isSome
 
 -- ---------------------------------------------------------------- semantic typing
 
@@ -282,7 +317,7 @@ def CloOk (defs : List Def) (S : List T) (ps : List String) (body : List Stmt) (
     (pts : List T) (r : T) : Prop :=
   ps.length = pts.length ∧
   ∃ (g : TEnvB) (k : Nat) (tv : T) (g' : TEnvB), EnvOkB S g cenv ∧
-    checkBlock defs k ⟨bindTys ps pts g, [], some r⟩ body = some (tv, g') ∧ fits tv r = true
+    checkBlock defs k ⟨bindTys ps pts g, [], some r, ps⟩ body = some (tv, g') ∧ fits tv r = true
 
 /-- the value typing judgement `v : τ` under store typing `S` (cell index ↦ declared type) -/
 def HasTy (defs : List Def) (S : List T) (v : Val) : T → Prop
